@@ -105,7 +105,31 @@ fn games() -> Vec<(&'static str, S)> {
         (l("a"), S::C(vec![(5.0, S::P(true, l("only"), vec![(l("go"), S::P(true, l("m"), vec![(l("l"), S::T(2.0)), (l("r"), S::T(-1.0))]))]))])),
         (l("b"), S::P(true, l("m2"), vec![(l("l"), S::T(-3.0)), (l("r"), S::T(4.0))])),
     ]);
-    vec![("chance-then-hidden-moves", g1), ("sequential-with-chance", g2), ("degenerate-nodes", g3)]
+    // G4 / G5: the mover has a 3-action infoset and, later, a 2-action infoset whose values are all
+    // negative in the mover's own utility (once with player one as the mover, once with player two)
+    let uneven = |one: bool| -> S {
+        let sg = if one { 1.0 } else { -1.0 };
+        S::P(one, l("r"), vec![
+            (l("x"), S::P(!one, l("q"), vec![
+                (l("l"), S::P(one, l("s"), vec![(l("u"), S::T(-1.0 * sg)), (l("d"), S::T(-2.0 * sg))])),
+                (l("r"), S::T(-4.0 * sg)),
+            ])),
+            (l("y"), S::T(-5.0 * sg)),
+            (l("z"), S::T(-3.0 * sg)),
+        ])
+    };
+    // G6 / G7: the best response runs through an opponent node one of whose actions may have probability
+    // exactly 0 and leads to an otherwise unreachable infoset of the deviating player
+    let hidden = |one: bool| -> S {
+        let sg = if one { 1.0 } else { -1.0 };
+        S::P(one, l("A"), vec![
+            (l("L"), S::T(0.0)),
+            (l("M"), S::T(1.0 * sg)),
+            (l("R"), S::P(!one, l("X"), vec![(l("l"), S::T(5.0 * sg)), (l("r"), S::P(one, l("B"), vec![(l("a"), S::T(0.0)), (l("b"), S::T(1.0 * sg))]))])),
+        ])
+    };
+    vec![("chance-then-hidden-moves", g1), ("sequential-with-chance", g2), ("degenerate-nodes", g3), ("uneven-action-counts-one", uneven(true)), ("uneven-action-counts-two", uneven(false)),
+         ("unreachable-infoset-one", hidden(true)), ("unreachable-infoset-two", hidden(false))]
 }
 
 fn profile(s: &S, one: bool, k: u64) -> Strat {
@@ -114,6 +138,12 @@ fn profile(s: &S, one: bool, k: u64) -> Strat {
     let mut out = Strat::new();
     for (j, (n, cnt)) in infos.into_iter().enumerate() {
         let h = (k.wrapping_mul(2654435761).wrapping_add(j as u64 * 40503)) >> 3;
+        if k >= 40 {
+            // pure profiles: infoset j plays action ((k - 40) / 3^j) mod its action count
+            let ch = (((k - 40) / 3u64.pow(j as u32)) % cnt as u64) as usize;
+            out.insert(n, (0..cnt).map(|a| if a == ch { 1.0 } else { 0.0 }).collect());
+            continue;
+        }
         let mut w: Vec<f64> = (0..cnt).map(|a| ((h >> (3 * a)) % 4) as f64).collect();
         if w.iter().sum::<f64>() == 0.0 {
             w[(h % cnt as u64) as usize] = 1.0; // pure
@@ -148,10 +178,10 @@ pub fn c01() -> (usize, Vec<String>) {
         };
         let mut names = BTreeMap::new();
         action_names(&g, &mut names);
-        for k in 0..40u64 {
+        for k in 0..67u64 {
             runs += 1;
             let s1 = profile(&g, true, k);
-            let s2 = profile(&g, false, k * 7 + 3);
+            let s2 = profile(&g, false, if k >= 40 { 40 + (k - 40) / 9 } else { k * 7 + 3 });
             let named = |one: bool, st: &Strat| -> Vec<(String, Vec<(String, f64)>)> {
                 st.iter().map(|(i, pr)| (i.clone(), names[&(one, i.clone())].iter().cloned().zip(pr.iter().cloned()).collect())).collect()
             };
